@@ -1800,6 +1800,56 @@ def check_C15(tier, seed):
     return out
 
 
+# ======================================================================================= C19
+def check_C19(tier, seed):
+    import gen_helpers
+    out = Outcome()
+    work = vlib.scratch('C19')
+    r = vlib.run_tlc('Helpers', os.path.join(vlib.SPEC, 'Helpers.cfg'), {}, 'C19_helpers', workers=4, timeout=900)
+    if r.errors and any('TemplateMatchesDoc' in e for e in r.errors):
+        raise Infra('Helpers.tla: template arithmetic and documented positions disagree in the specification itself: %s' % r.errors[:2])
+    if r.exit != 0 or r.errors:
+        raise Infra('Helpers.tla failed: %s\n%s' % (r.errors[:3], r.out[-1500:]))
+    cases = sorted(r.lines.get('HCASE', []), key=lambda c: (c['h'], c['n'], c['i'], c['j']))
+    if len(cases) < 500:
+        raise Infra('TLC printed only %d helper cases' % len(cases))
+    parts = [cases[k::8] for k in range(8)]
+    jobs = []
+    total = 0
+    for k, part in enumerate(parts):
+        src, n = gen_helpers.tu(part)
+        total += n
+        sp = os.path.join(work, 'helpers%d.cpp' % k)
+        with open(sp, 'w') as f:
+            f.write(src)
+        jobs.append((sp, lambda sp=sp: subprocess.run(['g++', '-std=c++17', '-O0', '-I' + os.path.join(vlib.REPO, 'include'), '-I' + vlib.HARNESS, sp, '-o', sp[:-4]], capture_output=True, text=True, timeout=1500)))
+    rs = vlib.run_parallel([j[1] for j in jobs])
+    nchecks = 0
+    for (sp, _), cr in zip(jobs, rs):
+        if cr.returncode != 0:
+            import re as _re
+            m = _re.findall(r'cid = "([^"]+)"', open(sp).read())
+            out.violations.append({'summary': {'class': 'a helper functor instantiation does not compile', 'compiler_says': cr.stderr[:700]}, 'kind': 'helpers'})
+            continue
+        rr = subprocess.run([sp[:-4]], capture_output=True, text=True, timeout=300)
+        for ln in rr.stdout.splitlines():
+            p = ln.split(' ', 2)
+            if p[0] == 'HFAIL':
+                out.violations.append({'summary': {'class': 'helper functor: ' + p[2], 'case(helper_arity_positions_category)': p[1]}, 'kind': 'helpers'})
+            elif p[0] == 'HDONE':
+                nchecks += int(ln.split()[2])
+        if 'HDONE' not in rr.stdout:
+            out.violations.append({'summary': {'class': 'helper functor test program died', 'exit': rr.returncode}, 'kind': 'helpers'})
+    out.violations = out.violations[:12]
+    out.coverage = {'states': int(r.distinct), 'transitions': int(max(r.generated, 1)), 'traces_validated_against_impl': 0,
+                    'cases_enumerated_by_TLC': len(r.lines.get('HCASE', [])), 'cases_replayed': len(cases), 'instantiations(cases x value categories)': total, 'assertions_evaluated': nchecks,
+                    'value_categories': ['lvalue', 'rvalue', 'move-only types'], 'arity': '1..9, every valid position / ordered pair',
+                    'samples': cases[:3], 'exhaustive': True}
+    out.assumptions = ['the TLA+ part is a small pure model (Helpers.tla): its enumeration is the test generator and it checks the template index arithmetic against the documented positions',
+                       'copies / moves / modifications are observed through tagged argument types (harness/helpers_rt.hpp); a pure read that leaves no trace is not observable']
+    return out
+
+
 # ======================================================================================= replay
 def replay(pid, path):
     v = json.load(open(path))
@@ -1812,6 +1862,10 @@ def replay(pid, path):
         print('library accepts:', recs[0] and recs[0]['valid'], ' ref mismatches:', len(ref.get('p0', [])), ' model mismatches:', len(model.get('p0', [])), ' syntax:', [d['why'] for d in probs])
         if crashed or ref or model or static or probs:
             out.violations.append(v)
+        return out
+    if v.get('kind') == 'helpers':
+        print('re-run ./check C19 (regenerates the translation units from the TLC cases)')
+        out.violations.append(v)
         return out
     if v.get('kind') == 'threads':
         print('thread-level witnesses depend on the schedule: re-run ./check C15')
